@@ -23,6 +23,7 @@ func isIntKind(t types.Type, k types.BasicKind) bool {
 
 func (x *Exec) execInstr(fr *Frame, ins ssa.Instruction, bc Term, st State) {
 	site := x.site(fr, ins)
+	x.curFr, x.curPos, x.curBc = fr, ins.Pos(), bc
 	switch i := ins.(type) {
 	case *ssa.DebugRef:
 		return
